@@ -138,6 +138,7 @@ func CheckC20(l *Lab, verifDir string) int {
 		}(si, sc)
 	}
 	wg.Wait()
+	c20ComesBack(l, rep)
 	return rep.Finish(40)
 }
 
@@ -456,4 +457,61 @@ func c20Settle(w *c20World) {
 			last, stable = c, 0
 		}
 	}
+}
+
+// c20ComesBack: the only KDC of the realm refuses connections, a request fails; the KDC comes back
+// on the same address and the next requests must be relayed to it (a reachable KDC is a reachable KDC,
+// whatever happened to earlier requests).
+func c20ComesBack(l *Lab, rep *Report) {
+	w, err := l.c20Start(map[string][]KDCBehaviour{"VERIF.TEST": {{"none", "none"}}, "OTHER.TEST": {{"reply-close", "reply"}}}, "VERIF.TEST", true)
+	if err != nil {
+		rep.Inconclusive("comes-back start: " + err.Error())
+		return
+	}
+	defer w.close()
+	k := w.realms["VERIF.TEST"].KDCs[0]
+	mk := func(i int) ([]byte, []byte) {
+		payload := GenStream(uint64(7000+i), 120)
+		framed := make([]byte, 4+len(payload))
+		binary.BigEndian.PutUint32(framed, uint32(len(payload)))
+		copy(framed[4:], payload)
+		return payload, KDCProxyMessage(framed, "VERIF.TEST", -1)
+	}
+	_, body := mk(0)
+	r, _, err := w.post(body, nil, "POST", 30*time.Second)
+	st0 := -1
+	if err == nil {
+		st0 = r.Status
+	}
+	rep.Eval(HashStr("comes-back", "down", st0))
+	if st0 == 200 {
+		rep.Violate("C20/reply-not-from-kdc/comes-back", "a 200 was returned while the only KDC of the realm refused connections", nil)
+	}
+	if err := k.ComeBack(); err != nil {
+		rep.Inconclusive("comes-back: cannot listen again: " + err.Error())
+		return
+	}
+	for i := 1; i <= 3; i++ {
+		payload, body := mk(i)
+		r, _, err := w.post(body, nil, "POST", 30*time.Second)
+		if err != nil {
+			rep.Violate("C20/no-answer/comes-back", "request after the KDC came back got no HTTP response: "+err.Error(), nil)
+			return
+		}
+		rep.Eval(HashStr("comes-back", "up", i, r.Status))
+		rep.Count(fmt.Sprintf("status/%d", r.Status), 1)
+		ok := false
+		if r.Status == 200 {
+			if msg, perr := ParseKDCProxyReply(r.Body); perr == nil {
+				rp := k.Reply(payload)
+				ok = len(msg) == 4+len(rp) && bytes.Equal(msg[4:], rp)
+			}
+		}
+		if !ok {
+			rep.Violate("C20/no-reply-relayed/comes-back", fmt.Sprintf("request %d after the realm's KDC came back on the same address (it had refused connections during an earlier request): status %d, want its reply", i, r.Status), nil)
+			return
+		}
+		time.Sleep(300 * time.Millisecond)
+	}
+	finishGatewayMonitorsNoRace(rep, w.gw, "C20")
 }
